@@ -200,3 +200,16 @@ func VerifKeyListSize(nodeName string, lt LamportTime, id uint32, keys []string,
 	}
 	return len(raw)
 }
+
+// VerifRegisterQuery2 is VerifRegisterQuery with separate deadline (the Timeout
+// field newQueryResponse derives the deadline from; may be negative = already
+// over) and timer (the timeout handed to registerQueryResponse).
+func VerifRegisterQuery2(s *Serf, n int, lt LamportTime, id uint32, ack bool, deadline, timer time.Duration) *QueryResponse {
+	q := messageQuery{LTime: lt, ID: id, Timeout: deadline}
+	if ack {
+		q.Flags |= queryFlagAck
+	}
+	resp := newQueryResponse(n, &q)
+	s.registerQueryResponse(timer, resp)
+	return resp
+}
